@@ -80,7 +80,7 @@ def _plain(o):
     return repr(o)
 
 
-def run_forked(M, argv, cwd, report_path, stdio_path, before_run=None, timeout=120, umask=0o022, env=None, second_argv=None):
+def run_forked(M, argv, cwd, report_path, stdio_path, before_run=None, timeout=120, umask=0o022, env=None, second_argv=None, unset_env=()):
     """-> outcome dict {status, wall, report(optional)}.  before_run(M) runs in the child right before Lian().run()
     and may return a finaliser that produces the JSON-able report."""
     pid = os.fork()
@@ -96,6 +96,8 @@ def run_forked(M, argv, cwd, report_path, stdio_path, before_run=None, timeout=1
             sys.stdout = os.fdopen(1, "w", closefd=False)
             sys.stderr = os.fdopen(2, "w", closefd=False)
             os.umask(umask)
+            for name_ in unset_env:
+                os.environ.pop(name_, None)
             if env:
                 os.environ.update(env)
             os.chdir(cwd)
